@@ -25,6 +25,36 @@ namespace Drv
 abbrev LH := LHG Nat Nat
 abbrev LF := LOHG Nat Nat
 
+/-- lax diagrams equal up to a renumbering of the nodes (edges keep their order): the renumbering
+    is DETERMINED by walking the node references of both sides in parallel; unreferenced nodes must
+    agree as multisets of labels.  Used where the library's node numbering comes out of the
+    connected-components primitive, whose numbering the array contract leaves open. -/
+def laxIso (m f : LF) : Bool :=
+  let refs := fun (g : LF) => g.sources ++ g.targets ++
+    g.hypergraph.adjacency.flatMap (fun e => e.sources ++ e.targets) ++ g.hypergraph.quotient.1 ++ g.hypergraph.quotient.2
+  let shape := fun (g : LF) => (g.sources.length, g.targets.length,
+    g.hypergraph.adjacency.map (fun e => (e.sources.length, e.targets.length)),
+    g.hypergraph.quotient.1.length, g.hypergraph.quotient.2.length)
+  m.hypergraph.nodes.length == f.hypergraph.nodes.length && m.hypergraph.edges == f.hypergraph.edges &&
+  shape m == shape f &&
+  let pairs := (refs m).zip (refs f)
+  let functional := pairs.all (fun p => pairs.all (fun q => (p.1 == q.1) == (p.2 == q.2)))
+  let labelsOk := pairs.all (fun p => m.hypergraph.nodes[p.1]? == f.hypergraph.nodes[p.2]? && (m.hypergraph.nodes[p.1]?).isSome)
+  let restM := (List.range m.hypergraph.nodes.length).filter (fun i => !(pairs.map (·.1)).contains i)
+  let restF := (List.range f.hypergraph.nodes.length).filter (fun i => !(pairs.map (·.2)).contains i)
+  let lm := restM.filterMap (m.hypergraph.nodes[·]?)
+  let lf := restF.filterMap (f.hypergraph.nodes[·]?)
+  functional && labelsOk && lm.length == lf.length && lm.all (fun x => lm.count x == lf.count x)
+
+/-- lax-diagram-valued result: exact first, else equal up to the determined node renumbering -/
+def laxIsoRel (m : Res LF) (impl : Sx) : Outcome :=
+  let ms := enc m
+  if isUnderflow m then { model := ms, agree := true, rel := "outside-precondition(underflow)" }
+  else if ms == impl then { model := ms, agree := true, rel := "exact" }
+  else match m, (unOk impl).bind (dec (α := LF)) with
+    | .ok a, some b => { model := ms, agree := laxIso a b, rel := "lax-iso(node renumbering)" }
+    | _, _ => { model := ms, agree := false, rel := "lax-iso(node renumbering)", note := m.site }
+
 /-- one builder step on a lax open hypergraph: new state and the call's output -/
 def editStep (B : Backend) (f : LF) (op : Sx) : Option (Res (LF × Sx)) :=
   let h := f.hypergraph
@@ -96,13 +126,148 @@ def runHistory (B : Backend) : LF → List Sx → List Sx → Option (List Sx)
     | some (.ok (f', out)) => runHistory B f' ops (Sx.l [out, enc f'] :: acc)
     | some _ => some ((Sx.s "panic" :: acc).reverse)
 
+/-! #### histories compared up to the node renumbering the quotient steps introduce
+
+The lax module numbers the nodes of a quotient by the connected-components primitive, whose
+numbering the array contract leaves open.  `ren` maps the model's node ids to the implementation's;
+it is re-determined at every quotient step from the two returned maps (no search). -/
+
+def mapIdsSx (g : Nat → Nat) : Sx → Sx
+  | .n v => .n (g v)
+  | .l xs => .l (xs.map (mapIdsSx g))
+  | x => x
+
+/-- the model's state pushed through `ren` -/
+def renState (ren : L) (f : LF) : LF :=
+  let g := fun i => ren.getD i i
+  let n := f.hypergraph.nodes.length
+  let inv := (List.range n).map (fun j => (ren.idxOf? j).getD j)
+  { sources := f.sources.map g, targets := f.targets.map g,
+    hypergraph :=
+      { nodes := inv.filterMap (f.hypergraph.nodes[·]?), edges := f.hypergraph.edges,
+        adjacency := f.hypergraph.adjacency.map (fun e => ⟨e.sources.map g, e.targets.map g⟩),
+        quotient := (f.hypergraph.quotient.1.map g, f.hypergraph.quotient.2.map g) } }
+
+def isPermOfRange (ren : L) : Bool := isPerm ren (List.range ren.length)
+
+/-- translate the node-id arguments of a step from the implementation's numbering to the model's -/
+def unrenOp (ren : L) (op : Sx) : Sx :=
+  let back := fun j => (ren.idxOf? j).getD j
+  match op with
+  | .l [.s "new_edge", x, s, t] => .l [.s "new_edge", x, mapIdsSx back s, mapIdsSx back t]
+  | .l [.s "unify", .n v, .n w] => .l [.s "unify", .n (back v), .n (back w)]
+  | .l [.s "delete_nodes", ids] => .l [.s "delete_nodes", mapIdsSx back ids]
+  | .l [.s "h_delete_nodes_witness", ids] => .l [.s "h_delete_nodes_witness", mapIdsSx back ids]
+  | .l [.s "set_sources", ids] => .l [.s "set_sources", mapIdsSx back ids]
+  | .l [.s "set_targets", ids] => .l [.s "set_targets", mapIdsSx back ids]
+  | other => other
+
+/-- run the model along the implementation's trace, tracking `ren`; `none` = malformed,
+    `some (agree, note)` otherwise -/
+def runHistoryRen (B : Backend) : LF → L → List Sx → List Sx → Option (Bool × String)
+  | _, _, [], [] => some (true, "")
+  | _, _, [], _ => some (false, "implementation trace is longer than the history")
+  | f, ren, op :: ops, implStep :: implRest =>
+    match editStep B f (unrenOp ren op), implStep with
+    | Option.none, _ => Option.none
+    | some (.ok (f', out)), .l [iout, istate] =>
+      match (dec istate : Option LF) with
+      | Option.none => some (false, "undecodable implementation state")
+      | some fi =>
+        -- new renumbering: quotient steps re-determine it from the two returned maps; deletions keep
+        -- the relative order of the survivors on both sides; every other step extends it by identity
+        let n' := f'.hypergraph.nodes.length
+        let ren' : L :=
+          match op, out, iout with
+          | .l [.s "quotient"], .l [.s "Ok", qm], .l [.s "Ok", qi]
+          | .l [.s "h_quotient"], .l [.s "Ok", qm], .l [.s "Ok", qi] =>
+            (match (dec qm : Option FinFun), (dec qi : Option FinFun) with
+             | some qm, some qi =>
+               (List.range n').map (fun k =>
+                 match qm.table.idxOf? k with
+                 | some i => qi.table.getD (ren.getD i i) k
+                 | Option.none => k)
+             | _, _ => List.range n')
+          | .l [.s "delete_nodes", _], _, _ | .l [.s "h_delete_nodes_witness", _], _, _ =>
+            -- survivors keep their relative order in both numberings
+            let keptM := (List.range f.hypergraph.nodes.length).filter (fun i =>
+              match unrenOp ren op with
+              | .l [_, ids] => (match (dec ids : Option L) with | some d => !d.contains i | Option.none => true)
+              | _ => true)
+            let keptI := (keptM.map (fun i => ren.getD i i)).mergeSort (fun a b => decide (a ≤ b))
+            keptM.map (fun i => (keptI.idxOf? (ren.getD i i)).getD 0)
+          | _, _, _ => ren ++ (List.range' ren.length (n' - ren.length))
+        let okShape := ren'.length == n' && isPermOfRange ren'
+        let stateOk := okShape && enc (renState ren' f') == enc fi
+        -- outputs: node ids are pushed through the new renumbering, maps are compared by kernel
+        let g := fun i => ren'.getD i i
+        let outOk : Bool :=
+          match op, out, iout with
+          | .l [.s "quotient"], .l [.s a, qm], .l [.s b, qi] | .l [.s "h_quotient"], .l [.s a, qm], .l [.s b, qi] =>
+            a == b && (match (dec qm : Option FinFun), (dec qi : Option FinFun) with
+              | some qm, some qi => qm.target == qi.target && denseOnto qi.table qi.target &&
+                  sameKernel qm.table ((List.range qm.table.length).map (fun i => qi.table.getD (ren.getD i i) 0))
+              | _, _ => false)
+          | .l [.s "coequalizer"], qm, qi =>
+            (match (dec qm : Option FinFun), (dec qi : Option FinFun) with
+              | some qm, some qi => qm.target == qi.target &&
+                  sameKernel qm.table ((List.range qm.table.length).map (fun i => qi.table.getD (ren.getD i i) 0))
+              | _, _ => false)
+          | .l [.s "h_delete_nodes_witness", _], wm, wi =>
+            (match (dec wm : Option (List (Option Nat))), (dec wi : Option (List (Option Nat))) with
+              | some wm, some wi => wm.length == wi.length &&
+                  (List.range wm.length).all (fun i => (wm.getD i none).map g == wi.getD (ren.getD i i) none)
+              | _, _ => false)
+          | .l [.s "new_node", _], o, io | .l [.s "add_edge_source", _, _], o, io
+          | .l [.s "add_edge_target", _, _], o, io | .l [.s "new_operation", _, _, _], o, io =>
+            -- fresh ids: (edge id, node ids…) — node ids through g, the edge id unchanged
+            (match op with
+             | .l [.s "new_operation", _, _, _] =>
+               (match o, io with
+                | .l [e, a, b], .l [e', a', b'] => e == e' && mapIdsSx g a == a' && mapIdsSx g b == b'
+                | _, _ => false)
+             | _ => mapIdsSx g o == io)
+          | _, o, io => o == io
+        if stateOk && outOk then runHistoryRen B f' ren' ops implRest
+        else some (false, s!"history diverges at step {ops.length} from the end: stateOk={stateOk} outOk={outOk}")
+    | some (.ok _), .s "panic" => some (false, "implementation rejected a step the model accepts")
+    | some (.ok _), _ => some (false, "malformed implementation step")
+    | some _, .s "panic" => some (implRest.isEmpty, "")   -- both reject: the history ends here
+    | some _, _ => some (false, "model rejects a step the implementation accepts")
+  | _, _, _ :: _, [] => some (false, "implementation trace is shorter than the history")
+
+/-- C09's literal clause, judged on the implementation's own trace: a quotient of a diagram without
+    pending unifications returns the identity map and leaves the diagram exactly as it was -/
+def quotientIdempotentOnImpl (start : LF) (ops implTrace : List Sx) : Bool :=
+  let states : List (Option LF) := some start :: implTrace.map (fun st =>
+    match st with | .l [_, s] => (dec s : Option LF) | _ => Option.none)
+  ((ops.zip implTrace).zip (states.zip states.tail)).all fun x =>
+    match x.1.1, x.1.2, x.2.1, x.2.2 with
+    | .l [.s "quotient"], .l [.l [.s "Ok", q], _], some before, some after =>
+      if before.hypergraph.quotient.1.isEmpty && before.hypergraph.quotient.2.isEmpty then
+        (match (dec q : Option FinFun) with
+         | some q => q.table == List.range before.hypergraph.nodes.length && enc before == enc after
+         | Option.none => false)
+      else true
+    | _, _, _, _ => true
+
 def laxEdit (B : Backend) (op : String) (args : List Sx) (impl : Sx) : Option Outcome :=
   match op, args with
   | "lax.edit", [start, .l ops] => do
     let f0 : LF ← dec start
     let tr ← runHistory B f0 ops []
     let m := okSx (.l tr)
-    pure { model := m, agree := m == impl, rel := "exact" }
+    if m == impl then pure { model := m, agree := true, rel := "exact" }
+    else
+      match unOk impl with
+      | some (.l implTrace) =>
+        if !quotientIdempotentOnImpl f0 ops implTrace then
+          pure { model := m, agree := false, rel := "oracle:quotient-idempotent",
+                 note := "a quotient of a diagram without pending unifications changed it or returned a non-identity map" }
+        else
+          let r ← runHistoryRen B f0 (List.range f0.hypergraph.nodes.length) ops implTrace
+          pure { model := m, agree := r.1, rel := "history-up-to-quotient-renumbering", note := r.2 }
+      | _ => pure { model := m, agree := false, rel := "exact" }
   | _, _ => none
 
 def laxCat (B : Backend) (op : String) (args : List Sx) (impl : Sx) : Option Outcome :=
@@ -218,7 +383,7 @@ def functorG (B : Backend) (op : String) (args : List Sx) (impl : Sx) : Option O
     pure (isoRel (SFunctor.mapArrow B (LFunctor.toDyn B (famFunctor ov pv)) f) impl)
   | "lax.functor.map_arrow", [ov, pv, f] => do
     let ov : Nat ← dec ov; let pv : Nat ← dec pv; let f : LF ← dec f
-    pure (exact (LFunctor.mapArrowViaStrict B (famFunctor ov pv) f) impl)
+    pure (laxIsoRel (LFunctor.mapArrowViaStrict B (famFunctor ov pv) f) impl)
   | "lax.functor.try_map_arrow", [ov, pv, f] => do
     let ov : Nat ← dec ov; let pv : Nat ← dec pv; let f : LF ← dec f
     pure (exact (LFunctor.tryMapArrow (famFunctor ov pv) f) impl)
